@@ -261,6 +261,7 @@ impl Group for History {
         let mut oi = 0;
         // (handler, reply) -> (when it was first produced, the lifetime it was produced with)
         let mut first_seen: std::collections::HashMap<(usize, String), (u64, Option<u64>)> = Default::default();
+        let mut once_only: std::collections::HashSet<(usize, String)> = Default::default();
         for ev in parse_list(p[3])? {
             let f: Vec<&str> = ev.split(':').collect();
             if f[0] == "K" {
@@ -312,6 +313,13 @@ impl Group for History {
                     Some(_) => {}
                     None => { first_seen.insert((pi, o.clone()), (now, life_ms)); }
                 }
+            }
+            // what was computed for a request whose response must not be stored is never seen again, by anybody
+            if once_only.contains(&(pi, o.clone())) {
+                return Some((format!("stored:{line}"), format!("{} reply {o} was computed for a request whose response is not cacheable, and was served again later", t.0)));
+            }
+            if uncacheable || p[1] == "0" {
+                once_only.insert((pi, o.clone()));
             }
             let e = seen.entry(pi).or_default();
             if (uncacheable || p[1] == "0") && e.contains(&o) {
